@@ -97,12 +97,16 @@ def validate_parallel(module, cfg, events, boundaries, k=8, timeout=3000, xmx="3
         v = validate(module, cfg, path, timeout=timeout, xmx=xmx)
         return v, idxmap
 
-    fails, results = [], []
+    fails, results, badrecs = [], [], {}
     with concurrent.futures.ThreadPoolExecutor(max_workers=len(jobs)) as ex:
         for v, idxmap in ex.map(work, jobs):
             results.append(v["res"])
+            for p in v["res"].printed:
+                if isinstance(p, dict) and "badrecs" in p:
+                    br = p["badrecs"]
+                    badrecs[idxmap[br["event"] - 1]] = dict(n=br["n"], first=sorted(br["first"]))
             if not v["accepted"]:
                 at = v["rejected_at"]
                 raise ToolError("trace structurally rejected at event %s: %s" % (idxmap[at - 1] if at - 1 < len(idxmap) else at, _json.dumps(v.get("event"))[:400]))
             fails += [idxmap[f - 1] for f in v["fails"]]
-    return dict(accepted=True, fails=sorted(fails), results=results)
+    return dict(accepted=True, fails=sorted(fails), results=results, badrecs=badrecs)
